@@ -422,6 +422,8 @@ type CheckRun struct {
 	Extra      map[string]interface{}
 }
 
+var checkDeadline = time.Now().Add(24 * time.Hour)
+
 func runInstances(P *Program, insts []*Instance, cfg Config, stats map[string]*SolverStats) {
 	var wg sync.WaitGroup
 	ch := make(chan *Instance)
@@ -431,6 +433,23 @@ func runInstances(P *Program, insts []*Instance, cfg Config, stats map[string]*S
 		go func() {
 			defer wg.Done()
 			for inst := range ch {
+				left := time.Until(checkDeadline).Seconds()
+				if left < 5 {
+					inst.Ends = map[string]int{"bound": 1}
+					inst.EndMsgs = map[string]int{"bound: check time budget exhausted before this instance started": 1}
+					inst.Notes = map[string]int{}
+					inst.reached = map[string]int{}
+					inst.oblLabels = map[string]int{}
+					inst.Funcs = map[string]bool{}
+					inst.Writes = map[string]bool{}
+					continue
+				}
+				if inst.MaxWallS == 0 || inst.MaxWallS > left {
+					inst.MaxWallS = left
+					if instWallBudget < left {
+						inst.MaxWallS = instWallBudget
+					}
+				}
 				inst.Run(P, primary, cfg.Timeout, cfg.Seed, stats[primary])
 			}
 		}()
@@ -554,6 +573,10 @@ func (c *CheckRun) judge() {
 			if f.Kind == "panic" && !c.Spec.Panics {
 				continue
 			}
+			if inst.Harness == "H_C12_sched" {
+				// schedule-dependent failure: the native replay repeats the concurrent pair many times
+				f.Values["stress"] = 300
+			}
 			pend = append(pend, pending{inst, f, &Vector{Harness: inst.Harness, Args: inst.Args, Vals: f.Values, Property: c.Spec.ID, Label: f.Label, Kind: f.Kind, Predict: f.Predict}})
 		}
 		for wi := range inst.Witnesses {
@@ -603,6 +626,10 @@ func (c *CheckRun) judge() {
 		} else {
 			for _, l := range r.Failures {
 				if l == p.f.Label {
+					confirmed = true
+				}
+				// a schedule-dependent failure may surface in either goroutine or in the later call
+				if p.inst.Harness == "H_C12_sched" && strings.HasPrefix(l, "concurrent-") {
 					confirmed = true
 				}
 			}
@@ -905,7 +932,9 @@ func main() {
 				cfg.Workers = v
 			}
 		}
+		checkDeadline = time.Now().Add(12 * time.Minute)
 		if cfg.Tier == "thorough" {
+			checkDeadline = time.Now().Add(6 * time.Hour)
 			instWallBudget = 3600
 			cfg.Solvers = []string{"z3-new", "z3", "cvc5"}
 			cfg.Timeout = 300000
@@ -939,12 +968,12 @@ func main() {
 		}
 		h := os.Args[2]
 		var post func(c *CheckRun)
-		if h == "H_C12_pair" {
+		if h == "H_C12_pair" || h == "H_C12_sched" {
 			post = c12Post
 		}
 		spec := &PropertySpec{ID: "DEBUG", Level: "model_checking", Panics: os.Getenv("VERIF_PANICS") != "", Post: post,
 			Instances: func(string) []*Instance {
-				return []*Instance{{Harness: h, Args: args, Lang: lang, MaxWitnesses: 2, LogEvents: h == "H_C12_pair"}}
+				return []*Instance{{Harness: h, Args: args, Lang: lang, MaxWitnesses: 2, LogEvents: h == "H_C12_pair" || h == "H_C12_sched"}}
 			}}
 		solvers := []string{"z3-new"}
 		if s := os.Getenv("VERIF_SOLVERS"); s != "" {
